@@ -40,9 +40,24 @@ CHECK = {'level': 'exploration',
          'heartbeats / 100 ms passed); a message that overlaps such a zone is charged to BOTH windows and every window stays within the limit. Oracle: V never stores a score for the '
          'IP of an innocent peer (sampled every 3 ms through the whole scenario), never lists it, stays connected to it, every one of its requests is answered. 3 fixed scripts in '
          'every tier (TestRegressConcurrentResetTicks: 5 and 6 held ticks at 500 / 300 ms, 3 unheld bans at the tick). '
+         'LATE BUT HONEST RESPONSES (about 1 scenario in 9; late_test.go): honest peers whose handlers answer every request, but SLOWLY - well-formed, solicited responses that arrive after '
+         'the requester stopped waiting. 2-4 started p2p.Connections (own IPs / 2-3 responders on one IP / a dial-only responder seen as 127.0.0.1, optionally next to a listener on 127.0.0.1 / '
+         'everybody on ::1) or a node plus a raw libp2p peer with 2-3 simultaneous connections that answers over a connection of its choice; limits 60-100 per procedure, rate interval 1 h, every '
+         'RequestFrom charged with its worst case (messageMaxRetries+1 requests and responses), so that all traffic is within the limits whatever the timing. The response timeout of the requester '
+         'is set per event through the hook (15-60 ms); request kinds: slow = the first 1..messageMaxRetries+1 attempts of a RequestFrom are answered timeout+3..30 ms after they arrived (several late '
+         'responses per request, then answered or given up), edge = every attempt answered timeout-6 ms..timeout+6 ms after it arrived (answer racing the timeout), cancel = the caller\'s context ends 8 ms '
+         'before .. 8 ms after the handler answers (one attempt under a 1 min timeout, or in the middle of the retries), prompt; 2-3 all-slow requests per responder (6-12 late responses per peer, more '
+         'per shared IP) plus 1-4 of the other kinds, sent one by one or to several peers at once, in both directions, between legal mixes over the three procedures, single requests, re-dials and '
+         'well-formed requests of the multi-connection peer; optionally ONE late response followed by a read of the score. Oracle (never claims that a response WAS late): after purely honest traffic '
+         'every node stores no score and no ban for any IP of the scenario or 127.0.0.1 / ::1 - read after every event, sampled every 5 ms through the whole scenario (3 scenarios in 5 use a 1 h expiry, '
+         'nothing is ever swept), read again once the traffic has demonstrably drained (all handlers returned, every node\'s message counters equal requests arrived + responses sent) -, nobody is '
+         'listed, everybody is still connected, a re-dial passes the gates, a further request is served. A stored score is positive evidence and is reported at its first occurrence. Labels count the '
+         'responses OBSERVED late (requester saw errTimeout / a cancelled context while the handler completed), per-IP maxima 1-4 / 5-11 / >= 12. 8 fixed scripts in every tier '
+         '(TestRegressLateHonestResponses: 3 x 4 late attempts; 5 single late responses with the score read after each; 7 cancels before / 2 after the answer; 8 answers racing the timeout; two '
+         'responders on one IP; dial-only responder; both nodes on ::1 slow in turn; responder with 3 connections answering over other connections). '
          'Non-trivial = (timed gater) an IP crossed the threshold by accumulation, was queried while certainly banned and again '
          'after the ban was seen over; (untimed gater) crossed by accumulation and queried while banned; (end-to-end) a ban caused by traffic with a '
-         'refused dial during the ban and an accepted one after it (multi-connection peer: banned while holding >= 2 connections, all closed), or a legal-only scenario that filled a rate window exactly or whose mix over the procedures exceeded a single limit, or (concurrent traffic around ticks) a reset tick that fell into a held or running penalty path of a procedure of which an innocent peer sent more than the limit over the two adjacent windows; (concurrent) >= 2 '
+         'refused dial during the ban and an accepted one after it (multi-connection peer: banned while holding >= 2 connections, all closed), or a legal-only scenario that filled a rate window exactly or whose mix over the procedures exceeded a single limit, or (concurrent traffic around ticks) a reset tick that fell into a held or running penalty path of a procedure of which an innocent peer sent more than the limit over the two adjacent windows, or (late honest responses) at least one response observed late, the scores read after the traffic had drained and a re-dial accepted; (concurrent) >= 2 '
          'racing penalties reaching the threshold. Distinct by digest of the concrete operation list. '
          '(c) INVALID SYNC REQUESTS against the REAL sync handlers (TestSyncRequests, TestRegressSyncRequests): the penalising side is a real consensus '
          'node (harness/node: Executer + consensus/sync Syncer over an in-memory chain of 1-6 blocks, started p2p.Connection on which Executer.Init '
@@ -79,7 +94,8 @@ CHECK = {'level': 'exploration',
                  'Connection.ApplyPenalty/BanPeer apply the amount once per open connection of the peer (recorded, not judged): for a peer with n connections a rise by 1..n times the amount is accepted',
                  'a goroutine may be delayed at any point: keeping rateLimit.checkLimit inside its logger.Debugf call (the counter lock is held there) for at most half a rate-limit interval is a schedule the statement quantifies over',
                  'window over by elapsed time (fallback of the concurrent-tick scenarios, not needed on the unchanged tree): after a reset tick has positively fired, every counter has been reset once no penalising checkLimit is in progress and the process ran >= 20 heartbeats (>= 100 ms) since',
-                 'an end-to-end scenario is reported only if it fails in 3 consecutive attempts without a process stall > 250 ms (else inconclusive)',
+                 'an end-to-end scenario is reported only if it fails in 3 consecutive attempts without a process stall > 250 ms (else inconclusive); exception (late-response scenarios): a score or ban stored for the IP of a peer that only sent well-formed, solicited traffic within the limits is positive evidence that no delay can produce and is reported at its first occurrence',
+                 'a response to a request this node really sent (same request ID, registered procedure, decodable) is well-formed traffic whenever it arrives: after the response timeout, after a re-send under a fresh ID, after the caller cancelled; the re-sends of RequestFrom (up to messageMaxRetries) count as requests of the requester',
                  'a "ban should be over by now" verdict is final only if it persists over 600 further process heartbeats (>= 3 s)'],
  'quick': [{'pkg': 'c18', 'run': 'TestGaterUntimed|TestGaterConcurrent|TestRegress', 'checks': 3000, 'timeout': 600},
            {'pkg': 'c18', 'run': 'TestGaterTimed', 'checks': 6, 'shrinktime': '10s', 'timeout': 600},
